@@ -1,4 +1,18 @@
-# Per-property claims. Edited as checks are implemented. exec()'d by gen_manifest.py.
+# Per-property claims. exec()'d by gen_manifest.py. claim(id, text, note, technique) / na(id, reason)
 PENDING = "check not implemented yet in this round (see DESIGN.md section 4 for the planned structural clauses)"
+TB = " Trusted base: go/packages+go/types+go/ssa of x/tools v0.29.0, the rule tables in /verif/lkcheck/props, cgo/third-party code outside the module."
+STATIC = "static analysis of /repo's type-checked SSA: "
+
+claim("C01",
+  "Structural necessary conditions of the per-validator voting discipline, decided on every path of consensus/state.go: who may sign votes and with which type, at most one sign call per path, exhaustive interpretation of every enter* re-entry guard and of the stale-timeout guard over all orderings of (height, round, step), own-step update on exit, polka/lock/commit guards dominating every non-nil precommit, lock write and commit call with provenance of the block id. This is what a static tool can decide of C01; cross-node agreement over schedules is NOT decided.",
+  "Agreement across nodes and message schedules, liveness and the gossip layer are outside what static analysis can bound; VoteSet arithmetic is decided under C03, cross-restart signing under C04." + TB,
+  STATIC + "guard dominance (K1), must-pass/at-most-once CFG paths (K2), who-may-call/write indexes (K3), comparison-only abstract interpretation of guards (K6)")
+
+claim("C12",
+  "Structural necessary conditions: Header.Hash covers every exported header field under its own name (field list taken from the struct type, so a new field is noticed); block ids compared whole; Block.ValidateBasic binds the derived hashes to content on every nil-error path; list hashes cover every element; PartSet.AddPart admits a part only under 0<=index<total, empty slot and Merkle proof of the part's own hash at its own index under the set hash; the proposal block is decoded only from a complete set read in index order; part sets are created only from signature-checked or +2/3 block ids. Collision resistance and byte equality are not decided.",
+  "Hash functions are trusted; Header.Recover is exempt from the header hash (committed through the part-set hash, compared by every block-id comparison)." + TB,
+  STATIC + "field coverage from types.Struct (K4), guard dominance (K1), sibling/shape agreement (K5), who-may-write (K3), truth-table interpretation of Equals/Verify (K6)")
+
 for _p in ["C%02d" % i for i in range(1, 21)]:
-    na(_p, PENDING)
+    if _p not in CLAIMED:
+        na(_p, PENDING)
